@@ -53,16 +53,21 @@ Nest(shape, inner, b) ==
   IF shape = <<>> THEN inner
   ELSE <<Wrap(Head(shape), <<T(NLs(b) \o <<121>>)>> \o Nest(Tail(shape), inner, b) \o <<T(<<122>>)>>)>>
 
+\* pad: the failing construct itself spans lines (newlines inside its delimiters), and so does an object before it
 Cases == {x \in [k : ParseKinds \cup RenderKinds, shape : UNION {Shapes(n) : n \in 0..D}, a : 0..2, b : 0..1,
-                 path : BOOLEAN, line0 : {0, 1, 5}] :
+                 path : BOOLEAN, line0 : {0, 1, 5}, pad : {0, 2}] :
             \* an unterminated block swallows the wrappers' end tags: only at depth 0
             /\ (x.k = "openif" => x.shape = <<>>)
             \* `when` directly inside case is not stray
-            /\ (x.k = "strayclause" => (x.shape = <<>> \/ x.shape[Len(x.shape)] # "case"))}
+            /\ (x.k = "strayclause" => (x.shape = <<>> \/ x.shape[Len(x.shape)] # "case"))
+            \* `endfor` directly inside for closes it (and the wrapper's own end tag becomes the stray one)
+            /\ (x.k = "strayend" => (x.shape = <<>> \/ x.shape[Len(x.shape)] # "for"))}
 
-ProgOf(x) == <<T(<<120>> \o NLs(x.a))>> \o Nest(x.shape, <<Bad(x.k)>>, x.b) \o <<T(<<10, 101>>)>>
+Padded(n, k) == IF k = 0 THEN n ELSE n @@ [padnl |-> k]
+Before(x) == IF x.pad = 0 THEN <<>> ELSE <<Padded(Ob(Lit(IntV(7))), 1)>>
+ProgOf(x) == <<T(<<120>> \o NLs(x.a))>> \o Before(x) \o Nest(x.shape, <<Padded(Bad(x.k), x.pad)>>, x.b) \o <<T(<<10, 101>>)>>
 \* the line on which the failing construct begins, by construction
-StaticLine(x) == x.line0 + x.a + x.b * Len(x.shape)
+StaticLine(x) == x.line0 + x.a + x.b * Len(x.shape) + (IF x.pad = 0 THEN 0 ELSE 1)
 PathOf(x) == IF x.path THEN <<100, 47, 116, 46, 108, 105, 113>> ELSE <<>>          \* d/t.liq
 
 Cx(x) == [Cx0 EXCEPT !.strict = (x.k = "strict"), !.path = PathOf(x), !.line0 = x.line0,
@@ -74,7 +79,7 @@ Next == st.status = "run" /\ st' = Step(Cx(c), st) /\ c' = c
 ErrLocated == (c.k \in RenderKinds /\ st.status # "run") => st.status = "error" /\ st.err.line = StaticLine(c)
 NoOutputAfterError == (c.k \in RenderKinds /\ st.status = "error") => st.sink.calls <= 2 * Len(c.shape) + 2
 
-IdOf(x) == x.k \o "-" \o ToString(x.shape) \o "-" \o ToString(x.a) \o ToString(x.b) \o ToString(x.path) \o ToString(x.line0)
+IdOf(x) == x.k \o "-" \o ToString(x.shape) \o "-" \o ToString(x.a) \o ToString(x.b) \o ToString(x.path) \o ToString(x.line0) \o ToString(x.pad)
 EmitCase == st.status # "run" =>
   PrintT(ToJson([id |-> IdOf(c), kind |-> "render", tm |-> "TraceC07", prog |-> ProgOf(c), env |-> <<>>,
                  strict |-> (c.k = "strict"), path |-> PathOf(c), line0 |-> c.line0, usedir |-> TRUE,
